@@ -354,6 +354,13 @@ def abbreviations():
     tz = TZ()
     return sorted(tz) or ['CET', 'CEST', 'EST']
 
+def unescape(s):
+    import re
+    def one(m):
+        x = m.group(1)
+        return {'n': '\n', 't': '\t', '\\': '\\'}.get(x) or chr(int(x[1:], 16))
+    return re.sub(r'\\(n|t|\\|x[0-9a-fA-F]{2}|u[0-9a-fA-F]{4})', one, s)
+
 def corpus():
     d = os.path.join(common.VERIF, 'corpus', 'C18')
     out = []
@@ -363,8 +370,8 @@ def corpus():
                 for line in fh.read().split('\n'):
                     if line and not line.startswith('#'):
                         s, _, h = line.partition('\t')
-                        s = s.encode('ascii').decode('unicode_escape')
-                        out.append((s, None if h in ('', 'None') else h.encode('ascii').decode('unicode_escape')))
+                        s = unescape(s)
+                        out.append((s, None if h == 'None' else unescape(h)))
     return out
 
 NOW_FIXED = G.to_us(datetime.datetime(2026, 9, 29, 19, 30, 12, 345678, tzinfo=datetime.timezone.utc))
